@@ -23,8 +23,8 @@ CHECKS = {
     ),
     "C03": dict(
         category="exploration",
-        technique="bounded-exhaustive enumeration of all sequences over the 19 (table, type) symbols on the real compute_tax, independent taxability table",
-        text="All sequences of up to 4 (thorough 5) transactions over every (table, transaction type) pair - 10 IN types, 6 OUT types, a SELL with fee, transfers with and without fee - after a covering purchase, one day apart and with every placement of one (two) same-instant steps, under fifo and hifo (thorough: all four): the taxable event set and the gain/loss set must contain exactly the rows an independent table says, once, in full, lot-less with zero cost for income, under the row's own type.",
+        technique="bounded-exhaustive enumeration of all sequences over the 20 (table, type) symbols on the real compute_tax, independent taxability table",
+        text="All sequences of up to 4 (thorough 5) transactions over every (table, transaction type) pair - 10 IN types, 6 OUT types, a SELL with fee, transfers with and without fee, a fee-bearing transfer to self - after a covering purchase, one day apart and with every placement of one (two) same-instant steps, under fifo and hifo (thorough: all four): the taxable event set and the gain/loss set must contain exactly the rows an independent table says, once, in full, lot-less with zero cost for income, under the row's own type.",
         note="The taxability table is written independently in rp2verif/props/c03.py. Negative STAKING acquisitions and transfer fees worth < 5e-14 fiat are outside the alphabet.",
         design="3/C03",
     ),
